@@ -38,10 +38,11 @@ claim("C19", "E1", "exploration",
       "Every combination of leading body octets over {0,1,2,255} with 0..3 trailing bytes for each packet type, 16-bit length pairs, 5x5 key pairs over a corpus of valid requests and the same bytes in the clear are delivered to the real server; "
       "bytes inconsistent under every layout must be answered by exactly one ERROR packet of the type and a close without any handler, exact requests and clear packets must be processed, anything else must be one of the two complete behaviours.",
       "octet values outside {0,1,2,255} in the first nine positions are covered only through the key-pair plane", "3/C19")
-claim("C20", "E3", "model_checking",
-      "explicit enumeration of connection histories on the real Serve loop with gauge conservation checked at every idle point and after Serve returns",
+claim("C20", "E3+E2", "model_checking",
+      "explicit enumeration of connection histories on the real Serve loop with gauge conservation checked at every idle point and after Serve returns; plus deviation-bounded schedule exploration of the instrumented code with a virtual clock that lets every armed timer fire after the teardown",
       "All histories up to the depth over opens, refused opens, packets on two sessions (accepted, even, replayed, continuation left open), key mismatch, oversize header and client close on up to two connections are run in a fresh world; "
-      "the four in-flight gauges read from the default registry must never be below rest and must be back at rest after teardown.",
+      "the four in-flight gauges read from the default registry must never be below rest and must be back at rest after teardown. "
+      "Under the controlled scheduler 32 small scripts (sessions that complete, sessions left waiting, a refused packet; plain and single-connect; clients close first or the server is cancelled first) run under every schedule with at most 1 (quick) / 2 (thorough) deviations, and an hour of virtual time passes after the teardown: same two oracles before and after the hour.",
       "histories deeper than the bound and more than two connections are not explored", "3/C20")
 claim("C11", "E1", "exploration",
       "bounded-exhaustive enumeration of (policy, request) pairs on the real authorizer against an independent policy evaluator",
@@ -88,7 +89,7 @@ claim("C09", "E3", "model_checking",
       "scripts are fixed packet lists; more than three simultaneous sessions are not explored", "3/C09")
 claim("C15", "E2", "model_checking",
       "stateless deviation-bounded exploration of goroutine interleavings of the instrumented real code under a controlled scheduler, with a per-schedule happens-before race oracle (Go race detector blinded to the scheduler)",
-      "Nineteen harnesses (concurrent connections on shared policy data, accept loop with opening/closing/refused connections, lookups concurrent with reloads, a consumer of a published configuration concurrent with the next load, the loader's update loop polling the real file-loader object while the next document is loaded, multiplexed sessions, cancellation during serving, cancellation racing the next requests of an idle connection with a pending session, two concurrent logins of one user with different passwords, a multi-scope user whose rule slices have spare capacity, a reload introducing new command patterns during a command authorization) run the real sync/goroutine/channel code on a cooperative scheduler; "
+      "Twenty-one harnesses (concurrent connections on shared policy data, accept loop with opening/closing/refused connections, lookups concurrent with reloads, a consumer of a published configuration concurrent with the next load, the loader's update loop polling the real file-loader object while the next document is loaded, multiplexed sessions, cancellation during serving, cancellation racing the next requests of an idle connection with a pending session, two concurrent logins of one user with different passwords, a multi-scope user whose rule slices have spare capacity, a reload introducing new command patterns during a command authorization, one key slice shared by every connection, a lookup held in the secret store across a reload, accounting through the default file sink - at /dev/full and at a scratch file - while the virtual clock ticks) run the real sync/goroutine/channel/timer code on a cooperative scheduler with a virtual clock; "
       "every schedule with at most 1 (quick) / 2 (thorough) deviations is executed under -race. A race report, a lookup that observes a mixture of two configurations, a published configuration that changes, a deadlock or a wrong reply is a violation.",
       "schedules with more deviations than the bound and code not reached by the harnesses are not covered; ThreadSanitizer treats the prometheus atomics as synchronisation, so statement-level points are inserted where handlers touch shared policy data (types.go TrimSpace, stringy evaluate, loader.updates)", "3/C15")
 claim("C17", "E2", "model_checking",
